@@ -1,18 +1,59 @@
 ID = 'C13'
-UNITS = {'kd': dict(wrap='wrap.cc', shim=True, new_block=128, cxxflags=['-DVERIF_DEQUE_CAP=5'], per_harness={'h_lookup.c': {'new_block': 64}, 'h_iter.c': {'new_block': 64}, 'h_erase_iter.c': {'new_block': 64}})}
-BOUNDS = 'TODO'
-STUBS = []
-OUTSIDE = []
-ASSUMPTIONS = []
+# shim=True: <deque> resolves to engine/shim/deque (fixed-capacity FIFO, capacity overflow = assertion failure); the native
+# "real" build uses libstdc++. new_block = fixed operator-new block: KDTree nodes are 56 bytes; the vector returned by
+# within() needs up to 4 * 24 = 96 bytes.
+UNITS = {'kd': dict(wrap='wrap.cc', shim=True, new_block=128, cxxflags=['-DVERIF_DEQUE_CAP=5'],
+                    per_harness={'h_lookup.c': {'new_block': 64}, 'h_iter.c': {'new_block': 64}, 'h_erase_iter.c': {'new_block': 64}})}
+
+BOUNDS = ('KDTree<Vector2<int64_t>,int>: P inserts of symbolic points from the 3x3 grid {0,1,2}^2 with symbolic values {0,1} (duplicate points, '
+          'identical (point,value) entries and shared coordinates included), then E erase(point,value) calls with symbolic arguments '
+          '(hit or miss), then (a) at/exists for a symbolic probe point, (b) exists(lo,hi)/within(lo,hi) for a symbolic half-open box with '
+          'corners in {0..3}^2, (c) iteration begin()..end(); each followed by the destructor. Quick: (P,E) in {(0,0),(1,0),(1,1),(2,1),(3,0)} '
+          'for all three plus (3,1) for lookup and iteration; thorough adds (2,2),(3,1),(3,2),(4,0) for all three and (4,1) for lookup and iteration. '
+          'Erase while iterating (erase_advance under a symbolic predicate over the entries, then size/iteration/exists): P <= 2 quick, P <= 3 thorough.')
+STUBS = ['std::deque -> engine/shim/deque (fixed-capacity FIFO of 5 slots, never reuses popped slots; overflow is an assertion failure, not reached for P <= 4)']
+OUTSIDE = ['more than 4 points; grids larger than 3x3 (ties along both axes, duplicates and identical entries are present in the 3x3 grid)',
+           'P=4 with 2 erases (lookup 11 min, iteration 10.5 min, box queries out of memory at 12 GB); box queries at P=4 with 1 erase and erase_advance at P=4: solver out of memory at 12 GB',
+           'Vector3 / 3-D trees; value types other than int; emplace() (does not compile: std::forward(args) without template argument)',
+           'depth(), at() value choice among duplicates of the same point (any stored value is accepted)',
+           "libstdc++'s std::deque itself"]
+ASSUMPTIONS = ['a box query on an empty tree is expected to return an empty result (property text: "agree with a linear scan")']
+
+
+def _cells(tier, what):
+    quick = [(0, 0), (1, 0), (1, 1), (2, 1), (3, 0)]
+    if what in ('lookup', 'iter'):
+        quick.append((3, 1))
+    if tier == 'quick':
+        return quick
+    extra = [(2, 2), (3, 1), (3, 2), (4, 0)]
+    if what in ('lookup', 'iter'):
+        extra.append((4, 1))
+    return quick + [c for c in extra if c not in quick]
+
+
+_MEM = {  # measured peak memory (GB, rounded up) of the larger cells; everything else stays below 3 GB
+}
+
 
 def queries(tier):
     qs = []
-    cells = [(0, 0), (1, 0), (1, 1), (2, 1), (3, 0), (3, 1)] + ([(2, 2), (3, 2), (4, 0), (4, 1), (4, 2)] if tier == 'thorough' else [])
+    what_desc = {
+        'lookup': 'erase results, size(), exists(pt) and at(pt) for a symbolic probe point equal a brute-force multiset; destructor runs',
+        'box': 'erase results, size(), exists(lo,hi) and the multiset returned by within(lo,hi) for a symbolic half-open box equal a brute-force scan; destructor runs',
+        'iter': 'erase results, size() and the multiset of entries visited by begin()..end() equal the brute-force multiset; destructor runs',
+    }
     for what in ('lookup', 'box', 'iter'):
-        for p, e in cells:
-            qs.append(dict(name='%s_p%d_e%d' % (what, p, e), unit='kd', harness='h_%s.c' % what, defs={'P': p, 'E': e}, unwind=p + 2, timeout=1500, mem_gb=12,
-                       object_bits=12, desc='KDTree history', bounds='p=%d e=%d' % (p, e)))
-    for p in ((0, 1, 2, 3) if tier == 'quick' else (0, 1, 2, 3, 4)):
-        qs.append(dict(name='erase_iter_p%d' % p, unit='kd', harness='h_erase_iter.c', defs={'P': p}, unwind=p + 2, unwindset='', timeout=1500, mem_gb=12,
-                       object_bits=12, desc='KDTree erase_advance', bounds='p=%d' % p))
+        for p, e in _cells(tier, what):
+            name = '%s_p%d_e%d' % (what, p, e)
+            qs.append(dict(name=name, unit='kd', harness='h_%s.c' % what, defs={'P': p, 'E': e}, unwind=p + 2, timeout=2400,
+                           mem_gb=_MEM.get(name, 3), object_bits=12, cost=(10 ** p) * (1 + 3 * e) * (3 if what == 'box' else 1),
+                           desc='KDTree: %d symbolic inserts on the 3x3 grid, %d symbolic erases: %s' % (p, e, what_desc[what]),
+                           bounds='P=%d inserts, E=%d erases, points in {0,1,2}^2, values {0,1}' % (p, e)))
+    for p in ((0, 1, 2) if tier == 'quick' else (0, 1, 2, 3)):
+        name = 'erase_iter_p%d' % p
+        qs.append(dict(name=name, unit='kd', harness='h_erase_iter.c', defs={'P': p}, unwind=p + 2, timeout=2400,
+                       mem_gb=_MEM.get(name, 3), object_bits=12, cost=(10 ** p) * 6,
+                       desc='KDTree: %d symbolic inserts, erase_advance under a symbolic predicate while iterating: every original entry is seen exactly once, afterwards size(), iteration and exists(pt) equal the brute-force survivors; destructor runs (possibly on an empty tree)' % p,
+                       bounds='P=%d inserts, every subset of entries erased during iteration' % p))
     return qs
